@@ -28,6 +28,29 @@ func isConfigFn(fn *ssa.Function) bool {
 	return false
 }
 
+// isConfigHelper: a private helper whose every call site lies in a
+// configuration function (or in another such helper) - setOwnership shared by
+// SetOwnedResources and SetReset.
+func isConfigHelper(p *core.Prog, fn *ssa.Function, depth int) bool {
+	o := core.Outermost(fn)
+	if isConfigFn(o) {
+		return true
+	}
+	if depth > 3 || !p.IsPrivateHelper(o) {
+		return false
+	}
+	cs := p.CallersOf(o)
+	if len(cs) == 0 {
+		return false
+	}
+	for _, c := range cs {
+		if !isConfigHelper(p, c.Parent(), depth+1) {
+			return false
+		}
+	}
+	return true
+}
+
 func c16(r *core.Run) {
 	p := r.P
 	r.Explanation = "Lockset discipline on the library's shared structures (not a whole-program race proof): for every field of the service and of the work item that is written anywhere outside configuration functions and outside serve's initialisation (which is ordered before the workers by the go statements and before API users by the atomic state), all such accesses must hold the queue mutex, or all be sync/atomic operations, or fall under a named, reasoned exemption; the in-memory logger's buffer is only touched under the logger's mutex; the mock store's map is only touched by transaction methods (whose receivers exist only between Read/Write and Close, C11.K1) and the configuration helper; closures handed on from inside a loop do not capture a variable the loop re-assigns. Request/transaction objects are confined to one callback by the API contract and are not analysed. 'State touched only from a group's callbacks needs no user synchronisation' follows from C01 plus the mutex hand-over around every callback (C01.L2); of C01's obligations the one a data race hinges on directly - check-then-register of a group's work item in one critical section (A2) - is re-checked here, the rest is an inference."
@@ -109,7 +132,7 @@ func c16(r *core.Run) {
 		return n > 0
 	}
 	for _, ac := range core.FieldAccesses(root, inUniverse) {
-		if isConfigFn(ac.Fn) {
+		if isConfigHelper(p, ac.Fn, 0) {
 			continue
 		}
 		if wrapperAtomic(ac) {
@@ -172,7 +195,7 @@ func c16(r *core.Run) {
 			for _, w := range fa.writes {
 				g := false
 				for _, ed := range dominatingEdges(w.Instr) {
-					if describeCond(ed) == f.String()+"==nil" {
+					if describeCond(ed) == f.String()+"==nil" || fieldIsNilOnEdge(ed, f) {
 						g = true
 					}
 				}
@@ -203,7 +226,7 @@ func c16(r *core.Run) {
 				}
 				fl.Branch = func(iff *ssa.If, succ int, st int) (int, bool) {
 					for _, ed := range []edgeCond{{If: iff, Succ: succ}} {
-						if describeCond(ed) == f.String()+"==nil" {
+						if describeCond(ed) == f.String()+"==nil" || fieldIsNilOnEdge(ed, f) {
 							return 1, true
 						}
 					}
@@ -338,55 +361,7 @@ func c16(r *core.Run) {
 	}
 
 	// ---- D4 --------------------------------------------------------------
-	{
-		rel := "store/badgerstore"
-		n := 0
-		for _, ac := range core.FieldAccesses(p.FuncsOfPkg(rel), func(f core.Field) bool {
-			return f.Struct == rel+".Store" || f.Struct == rel+".QueryStore"
-		}) {
-			if ac.Kind != "store" {
-				continue
-			}
-			n++
-			fn := ac.Fn
-			st := ac.Instr.(*ssa.Store)
-			fresh := false
-			if fa, ok := st.Addr.(*ssa.FieldAddr); ok {
-				if al, ok := core.Strip(fa.X).(*ssa.Alloc); ok && al.Parent() == fn {
-					fresh = true
-				}
-			}
-			okRecv := false
-			if rcv := fn.Signature.Recv(); rcv != nil {
-				if pt, ok := rcv.Type().Underlying().(*types.Pointer); ok && core.TypeName(pt.Elem()) == ac.F.Struct {
-					okRecv = true
-				}
-			}
-			var cfgOnly func(f *ssa.Function, d int) bool
-			cfgOnly = func(f *ssa.Function, d int) bool {
-				if f.Parent() != nil || d > 4 {
-					return false
-				}
-				cs := p.CallersOf(f)
-				if f.Object() != nil && f.Object().Exported() {
-					if !isConfigFn(f) {
-						return false
-					}
-				} else if len(cs) == 0 {
-					return false
-				}
-				for _, c := range cs {
-					if core.IsGo(c) || !cfgOnly(core.Outermost(c.Parent()), d+1) {
-						return false
-					}
-				}
-				return true
-			}
-			good := fresh || (okRecv && cfgOnly(fn, 0))
-			r.Check(good, "D4", core.FuncName(fn), "store("+ac.F.String()+")", p.InstrPos(ac.Instr), "written by a constructor or an exported configuration method of the store itself that no runtime path calls", "a store field is written outside configuration (in a function transactions or queries reach): transactions on different ids hold different key locks and run in parallel, so the write races with every reader of the field")
-		}
-		r.Analysed["badgerstore_field_stores"] = n
-	}
+	c16StoreConfigFrozen(r, "D4")
 
 	// ---- O1 --------------------------------------------------------------
 	c16RequestsOwnTheirMemory(r, "O1")
@@ -787,4 +762,73 @@ func c16RequestsOwnTheirMemory(r *core.Run, rule string) {
 	}
 	r.Analysed["request_field_stores_checked"] = nChecked
 
+}
+
+// c16StoreConfigFrozen is C16.D4 (shared as C11.K6): fields of badgerstore's
+// Store and QueryStore are written only by constructors and configuration
+// methods no runtime path calls.
+func c16StoreConfigFrozen(r *core.Run, rule string) {
+	p := r.P
+	rel := "store/badgerstore"
+	n := 0
+	for _, ac := range core.FieldAccesses(p.FuncsOfPkg(rel), func(f core.Field) bool {
+		return f.Struct == rel+".Store" || f.Struct == rel+".QueryStore"
+	}) {
+		if ac.Kind != "store" {
+			continue
+		}
+		n++
+		fn := ac.Fn
+		st := ac.Instr.(*ssa.Store)
+		fresh := false
+		if fa, ok := st.Addr.(*ssa.FieldAddr); ok {
+			if al, ok := core.Strip(fa.X).(*ssa.Alloc); ok && al.Parent() == fn {
+				fresh = true
+			}
+		}
+		okRecv := false
+		if rcv := fn.Signature.Recv(); rcv != nil {
+			if pt, ok := rcv.Type().Underlying().(*types.Pointer); ok && core.TypeName(pt.Elem()) == ac.F.Struct {
+				okRecv = true
+			}
+		}
+		var cfgOnly func(f *ssa.Function, d int) bool
+		cfgOnly = func(f *ssa.Function, d int) bool {
+			if f.Parent() != nil || d > 4 {
+				return false
+			}
+			cs := p.CallersOf(f)
+			if f.Object() != nil && f.Object().Exported() {
+				if !isConfigFn(f) {
+					return false
+				}
+			} else if len(cs) == 0 {
+				return false
+			}
+			for _, c := range cs {
+				if core.IsGo(c) || !cfgOnly(core.Outermost(c.Parent()), d+1) {
+					return false
+				}
+			}
+			return true
+		}
+		good := fresh || (okRecv && cfgOnly(fn, 0))
+		r.Check(good, rule, core.FuncName(fn), "store("+ac.F.String()+")", p.InstrPos(ac.Instr), "written by a constructor or an exported configuration method of the store itself that no runtime path calls", "a store field is written outside configuration (in a function transactions or queries reach): transactions on different ids hold different key locks and run in parallel, so the write races with every reader of the field")
+	}
+	r.Analysed["badgerstore_field_stores"] = n
+
+}
+
+// fieldIsNilOnEdge: taking the edge establishes that the member f is nil - the
+// true edge of `f == nil` or the false edge of `f != nil` (a guard clause).
+func fieldIsNilOnEdge(ed edgeCond, f core.Field) bool {
+	ci := core.Cond(ed.If.Cond)
+	if ci.Kind != "nilcmp" || !ci.HasFld || ci.Field != f {
+		return false
+	}
+	truth := ed.Succ == 0
+	if ci.Negate {
+		truth = !truth
+	}
+	return (ci.Op == token.EQL) == truth
 }
